@@ -559,6 +559,74 @@ impl FixtureDatabase {
         imported_fixtures
     }
 
+    /// Find the definition of `fixture_name` that `file_path` makes available through its
+    /// imports (star imports, explicit imports of that name, `pytest_plugins`), following
+    /// re-exports transitively. `candidates` are the known definitions of that name; only a
+    /// definition living in a module the import chain actually leads to is returned, so an
+    /// unrelated same-named fixture elsewhere in the workspace is never picked.
+    pub(crate) fn find_imported_fixture_definition<F>(
+        &self,
+        fixture_name: &str,
+        file_path: &Path,
+        candidates: &[super::types::FixtureDefinition],
+        filter: &F,
+        visited: &mut HashSet<PathBuf>,
+    ) -> Option<super::types::FixtureDefinition>
+    where
+        F: Fn(&super::types::FixtureDefinition) -> bool,
+    {
+        let canonical_path = self.get_canonical_path(file_path.to_path_buf());
+        if !visited.insert(canonical_path.clone()) {
+            return None;
+        }
+
+        let content = self.get_file_content(&canonical_path)?;
+        let parsed = self.get_parsed_ast(&canonical_path, &content)?;
+        let line_index = self.get_line_index(&canonical_path, &content);
+        let rustpython_parser::ast::Mod::Module(module) = parsed.as_ref() else {
+            return None;
+        };
+
+        let mut targets: Vec<PathBuf> = Vec::new();
+        for import in self.extract_fixture_imports(&module.body, &canonical_path, &line_index) {
+            if import.is_star_import || import.imported_names.iter().any(|n| n == fixture_name) {
+                if let Some(resolved) =
+                    self.resolve_module_to_file(&import.module_path, &canonical_path)
+                {
+                    targets.push(self.get_canonical_path(resolved));
+                }
+            }
+        }
+        for module_path in self.extract_pytest_plugins(&module.body) {
+            if let Some(resolved) = self.resolve_module_to_file(&module_path, &canonical_path) {
+                targets.push(self.get_canonical_path(resolved));
+            }
+        }
+
+        for target in targets {
+            // Defined directly in the imported module (last definition wins)
+            if let Some(def) = candidates
+                .iter()
+                .filter(|def| def.file_path == target && filter(def))
+                .max_by_key(|def| def.line)
+            {
+                return Some(def.clone());
+            }
+            // Re-exported by the imported module
+            if let Some(def) = self.find_imported_fixture_definition(
+                fixture_name,
+                &target,
+                candidates,
+                filter,
+                visited,
+            ) {
+                return Some(def);
+            }
+        }
+
+        None
+    }
+
     /// Check if a fixture is available in a file via imports.
     /// This is used in resolution to check conftest.py files that import fixtures.
     pub fn is_fixture_imported_in_file(&self, fixture_name: &str, file_path: &Path) -> bool {
